@@ -27,6 +27,18 @@ mod verif_kani {
         kani::cover!(a == b);
     }
 
+    /// The exact oracle the Verus units assume for `cmp` (`tick_order` in contracts/replicon_tick.vrs).
+    #[kani::proof]
+    fn vk_u01_cmp_exact_oracle() {
+        let a: u32 = kani::any();
+        let b: u32 = kani::any();
+        let d = a.wrapping_sub(b);
+        let want = if d == 0 { Ordering::Equal } else if d > 0x7fff_ffff { Ordering::Less } else { Ordering::Greater };
+        assert!(RepliconTick::new(a).cmp(&RepliconTick::new(b)) == want);
+        kani::cover!(d == 0x8000_0000);
+        kani::cover!(d == 0x7fff_ffff);
+    }
+
     #[kani::proof]
     fn vk_u01_partial_cmp() {
         let ta = RepliconTick::new(kani::any());
